@@ -517,6 +517,84 @@ fn strings(r: &mut StdRng, alpha: &[i64], n: usize, maxlen: usize, u: &Uni, lig_
         .collect()
 }
 
+/// Variation data for a random program (round 4): the program becomes one of a variable font shaped
+/// for an instance. The regions / delta sets / instances are those of MC_Gpos (per-axis scalars are
+/// multiples of 1/4, so the arithmetic is exact); every value record of the SinglePos / PairPos
+/// lookups gets device descriptors (used where the ValueFormat has bits 4-7). Own generator, so that
+/// the programs themselves are what they were without variation.
+fn add_variation(prog: &mut Value, r: &mut StdRng) {
+    let tuples: [(bool, &[i64]); 8] = [
+        (false, &[0]),
+        (true, &[0]),
+        (true, &[4096]),
+        (true, &[8192]),
+        (true, &[16384]),
+        (true, &[-8192]),
+        (true, &[8192, 8192]),
+        (true, &[-16384, 4096]),
+    ];
+    let (has, c) = tuples[r.gen_range(0..tuples.len())];
+    let regions = if c.len() == 1 {
+        json!([[{"s": 0, "p": 16384, "e": 16384}], [{"s": 0, "p": 8192, "e": 16384}], [{"s": -16384, "p": -16384, "e": 0}]])
+    } else {
+        json!([[{"s": 0, "p": 16384, "e": 16384}, {"s": 0, "p": 0, "e": 0}],
+               [{"s": 0, "p": 16384, "e": 16384}, {"s": 0, "p": 16384, "e": 16384}],
+               [{"s": -16384, "p": -16384, "e": 0}, {"s": 0, "p": 8192, "e": 16384}]])
+    };
+    let data = json!([
+        {"regs": [0, 1], "wc": 2, "sets": [[40, -12], [-7, 30], [3, 0], [-3, 0], [0, 21]]},
+        {"regs": [2, 0], "wc": 0, "sets": [[-20, 10], [5, -6]]},
+        {"regs": [0, 1, 2], "wc": 1, "sets": [[300, -5, 9]]}
+    ]);
+    let store = r.gen_bool(0.85);
+    prog["var"] = json!({"tuple": {"has": has, "c": c}, "store": store, "regions": regions, "data": data});
+    fn dev(r: &mut StdRng, y_advance: bool) -> Value {
+        let rows = [5usize, 2, 1];
+        match r.gen_range(0..10) {
+            0 => json!({"k": "null"}),
+            1 => json!({"k": "hint", "fmt": r.gen_range(1..=3)}),
+            2 => json!({"k": "var", "o": r.gen_range(3..6), "i": 0}),
+            3 => json!({"k": "var", "o": 0, "i": r.gen_range(5..9)}),
+            // (a yAdvance that varies is outside the fragment like a yAdvance itself)
+            _ if y_advance => json!({"k": "null"}),
+            _ => {
+                let o = r.gen_range(0..3usize);
+                json!({"k": "var", "o": o, "i": r.gen_range(0..rows[o])})
+            }
+        }
+    }
+    fn decorate(v: &mut Value, r: &mut StdRng) {
+        v["dev"] = json!([dev(r, false), dev(r, false), dev(r, false), dev(r, true)]);
+    }
+    if let Some(lookups) = prog["lookups"].as_array_mut() {
+        for l in lookups {
+            let ty = l["ty"].as_i64().unwrap_or(0);
+            if ty != 1 && ty != 2 {
+                continue;
+            }
+            for st in l["subs"].as_array_mut().unwrap() {
+                if ty == 1 {
+                    if st["f"] == 1 {
+                        decorate(&mut st["v"], r);
+                    } else {
+                        for v in st["vs"].as_array_mut().unwrap() {
+                            decorate(v, r);
+                        }
+                    }
+                } else {
+                    let key = if st["f"] == 1 { "sets" } else { "recs" };
+                    for row in st[key].as_array_mut().unwrap() {
+                        for rec in row.as_array_mut().unwrap() {
+                            decorate(&mut rec["v1"], r);
+                            decorate(&mut rec["v2"], r);
+                        }
+                    }
+                }
+            }
+        }
+    }
+}
+
 /// (kind, program, inputs) triples, deterministic in `seed`.
 pub fn programs(seed: u64, n_prog: usize, n_str: usize) -> Vec<(String, Value, Vec<Value>)> {
     let mut r = StdRng::seed_from_u64(seed ^ 0xC05C05);
@@ -639,6 +717,12 @@ pub fn programs(seed: u64, n_prog: usize, n_str: usize) -> Vec<(String, Value, V
             }
         };
         let ins = strings(r, &alpha, n_str, 6, &u, lig_comps);
+        let mut prog = prog;
+        // three rounds of four: a variable font shaped for an instance (every GDEF variant is reached)
+        if ["single", "pair", "ctx", "mixed", "mark"].contains(&kind) && (pi / kinds.len()) % 4 != 0 {
+            let mut r2 = StdRng::seed_from_u64(seed ^ 0xDE17A ^ ((pi as u64) << 20));
+            add_variation(&mut prog, &mut r2);
+        }
         out.push((kind.to_string(), prog, ins));
     }
     out
